@@ -110,9 +110,8 @@ def run(ctx):
             near = re.search(r"near '([a-z_]+)'", x["err"])
             kwfunc = bool(near and re.search(r"`%s`\s*\(" % near.group(1), c["sql"], re.I) and re.search(r"(?<![`\w])%s\(" % near.group(1), x["printed"], re.I))
             placeholder = x["printed"].split(" ")[0] in ("otherread", "otheradmin")
-            kwtype = bool(near and re.search(r"\bAS\s+`%s`" % near.group(1), c["sql"], re.I) and re.search(r"\bconvert\([^()]*,\s*%s\b" % near.group(1), x["printed"], re.I))
-            kwunit = bool(near and re.search(r"`%s`" % near.group(1), c["sql"], re.I) and re.search(r"\binterval\b[^,]*?(?<![`\w])%s\b(?!`)" % near.group(1), x["printed"], re.I)) and not kwfunc and not kwtype
-            ctx.violation({"site": "sqlparser.String", "why": "printed text does not parse", "features": f[:6], "src": c["src"], "keyword_function_name": kwfunc, "placeholder_statement": placeholder, "keyword_interval_unit": kwunit, "keyword_type_name": kwtype},
+            plain = bool(near and x.get("plain_string_fields") and re.search(r"`%s`" % near.group(1), c["sql"], re.I)) and not kwfunc
+            ctx.violation({"site": "sqlparser.String", "why": "printed text does not parse", "features": f[:6], "src": c["src"], "keyword_function_name": kwfunc, "placeholder_statement": placeholder, "keyword_in_plain_string_field": plain, "fields": x.get("plain_string_fields", []) if plain else []},
                           {"sql": c["sql"]}, expected="String(Parse(s)) parses",
                           observed={"printed": x["printed"], "error": x["err"]}, note="the printed statement is rejected by the parser")
         elif not x["equal"]:
